@@ -255,13 +255,19 @@ def _k_rule(c) -> CaseInfo:
     pool: list[str] = []
     val2, _ = roundtrip(lambda w: rec._write(w), lambda rd: _ZoneRecurrence.read(rd), "recurrence", pool_w=pool)
     need(val2 == rec, "recurrence/value", f"{rec!r} -> {val2!r}")
-    if sav != 0 and valid_rule(c["rule2"]) and abs(c["rule2"]["month"] - r["month"]) >= 2:
+    if valid_rule(c["rule2"]) and abs(c["rule2"]["month"] - r["month"]) >= 2:
+        # the second recurrence may have positive, negative or no savings at all (documented: America/Resolute);
+        # the map may be built with the recurrences in either order
         std = _ZoneRecurrence("S" + name, Offset.zero, mk_rule(c["rule2"]), -(2**31), 2**31 - 1)
         dst = _ZoneRecurrence("D" + name, Offset.from_seconds(sav), yo, -(2**31), 2**31 - 1)
-        amap = _StandardDaylightAlternatingMap._ctor(Offset.from_seconds(c["standard"]), std, dst)
-        pool = []
-        val3, _ = roundtrip(lambda w: amap._write(w), lambda rd: _StandardDaylightAlternatingMap._read(rd), "alternating_map", pool_w=pool)
-        need(val3 == amap, "alternating_map/value")
+        for first, second in ((std, dst), (dst, std)):
+            amap = _StandardDaylightAlternatingMap._ctor(Offset.from_seconds(c["standard"]), first, second)
+            pool = []
+            val3, enc3 = roundtrip(lambda w: amap._write(w), lambda rd: _StandardDaylightAlternatingMap._read(rd), "alternating_map", pool_w=pool)
+            need(val3 == amap, "alternating_map/value", f"savings {sav}")
+            buf4, w4 = writer(list(pool))
+            val3._write(w4)
+            need(buf4.getvalue() == enc3, "alternating_map/re-encode-differs", f"savings {sav}: {enc3.hex()} vs {buf4.getvalue().hex()}")
     return CaseInfo(r["day"] < 0 or r["add_day"] or r["dow"] == 7, "rule")
 
 
